@@ -1,6 +1,10 @@
 use crate::runner::DynSub;
 
 pub mod c01;
+pub mod c02;
+pub mod c03;
+pub mod c09;
+pub mod c10;
 
 pub fn build_info() -> String {
     let mut f: Vec<&str> = Vec::new();
@@ -19,6 +23,10 @@ pub fn build_info() -> String {
 pub fn subs(prop: &str) -> Vec<Box<dyn DynSub>> {
     match prop {
         "C01" => c01::subs(),
+        "C02" => c02::subs(),
+        "C03" => c03::subs(),
+        "C09" => c09::subs(),
+        "C10" => c10::subs(),
         _ => Vec::new(),
     }
 }
